@@ -1,4 +1,5 @@
 import Lm.Generated.Bst
+import Lm.Struct.BstCmp
 import Lm.Inv.Bst
 /-!
 # Instantiation of the ordered-set theorems with the comparator regenerated from the source (tie A)
@@ -72,9 +73,6 @@ theorem ptrcmp_total : TotalOrderCmp (fun a b : BitVec 64 => (ptrcmp a b).toInt)
       omega
     · omega
 
-/-- the default comparator as the set uses it: on user pointers given as integers below 2^64 -/
-def defaultCmp (a b : Val) : Int := (ptrcmp (BitVec.ofNat 64 a) (BitVec.ofNat 64 b)).toInt
-
 theorem defaultCmp_total : TotalOrderCmp defaultCmp := ptrcmp_total.comap (BitVec.ofNat 64)
 
 theorem defaultCmp_eq_iff {a b : Val} (ha : a < 2 ^ 64) (hb : b < 2 ^ 64) : defaultCmp a b = 0 ↔ a = b := by
@@ -96,10 +94,6 @@ theorem defaultCmp_lt_iff {a b : Val} (ha : a < 2 ^ 64) (hb : b < 2 ^ 64) : defa
 
 /-! ## The user comparator of the correspondence harness -/
 
-/-- three-way comparison of a key derived from the element (distinct pointers may compare equal) -/
-def keyCmp (key : Val → Nat) (a b : Val) : Int :=
-  (if key a > key b then 1 else 0) - (if key a < key b then 1 else 0)
-
 theorem keyCmp_total (key : Val → Nat) : TotalOrderCmp (keyCmp key) := by
   refine ⟨?_, ?_, ?_⟩
   · intro a; simp [keyCmp]
@@ -113,9 +107,6 @@ theorem keyCmp_total (key : Val → Nat) : TotalOrderCmp (keyCmp key) := by
     intro h1 h2
     by_cases c1 : x < y <;> by_cases c2 : y < x <;> by_cases c3 : y < z <;> by_cases c4 : z < y <;>
       by_cases c5 : x < z <;> by_cases c6 : z < x <;> simp [c1, c2, c3, c4, c5, c6] at h1 h2 ⊢ <;> omega
-
-/-- the comparator the harness passes for `new … user`: order by `v / 4` -/
-def userCmp : Val → Val → Int := keyCmp (· / 4)
 
 theorem userCmp_total : TotalOrderCmp userCmp := keyCmp_total _
 
